@@ -16,7 +16,7 @@ CHECKS = {
          "Seeded exploration (programs x limit configurations x schedules x clock stalls) with oracles S1-S6 of DESIGN §3 C11 (no silent truncation, limits honoured, distinguishable and possible error, bounded call time, limits honoured by every constructor, no stranded goroutine), plus a fault-enumeration part that is exhaustive in the injection step of the stall for a fixed catalogue of small programs (reported under coverage.fault_enumeration). Sampling elsewhere.",
          "trusted: reference model for |lfp| and depth, synctest's durable-blocking detection, runtime.Stack for the goroutine census", "DESIGN.md §3 C11"),
  "C01": ("exploration", "deterministic simulation with fault injection: multi-party histories (issuers, holders, verifiers) over a simulated transport on which a key-less adversary mutates in-flight tokens; oracle = independent wire decoder + ed25519 chain walk + ground-truth key ledger",
-         "Seeded exploration of derivation histories x 1-3 mutations per message drawn from 34 byte-level and structural mutation kinds; soundness (accepted => reference chain walk accepts and the authority block was signed by the issuer per the key ledger), completeness (well-formed and valid => accepted, including legitimately valid mutations such as appending with a captured next secret) and 'no Authorizer for a rejected token'. Sampling; ed25519 itself is trusted.",
+         "Seeded exploration of derivation histories (chains up to 16 blocks, the same token object verified repeatedly) x 1-3 mutations per message drawn from 34 byte-level and structural mutation kinds; soundness (accepted => reference chain walk accepts and the authority block was signed by the issuer per the key ledger), completeness (well-formed and valid => accepted, including legitimately valid mutations such as appending with a captured next secret) and 'no Authorizer for a rejected token'. Sampling; ed25519 itself is trusted.",
          "trusted: bsim/ref wire reader and chain walk, crypto/ed25519; mutation kinds are those listed in the evidence 'rule'", "DESIGN.md §3 C01"),
  "C02": ("exploration", "deterministic simulation: delegation histories with hostile holders generating blocks against the verifier's policies; lineage invariant over the recorded history (model-free)",
          "Seeded exploration of delegation chains (1-5 hops) whose appended blocks are generated against the token and the authorizer content; invariant allow(descendant) => allow(ancestor) for every ancestor verified with the same authorizer content. Model-free relational oracle, so a reference-model bug cannot raise a C02 alarm. Sampling; reach is that of the adversarial block generator.",
@@ -28,7 +28,7 @@ CHECKS = {
          "Seeded exploration of build / attenuate / seal / serialize / reload histories over generated block contents: decoded content, symbol-table rules and version must equal what the callers supplied; Unmarshal+Serialize must be the identity on bytes; reloaded tokens print, identify and authorize like the originals; unsupported versions must be rejected. Sampling.",
          "trusted: bsim/ref wire reader (field numbers transcribed from pb/biscuit.proto), validated on the repository's sample tokens", "DESIGN.md §3 C07"),
  "C08": ("exploration", "deterministic simulation: seeded interleavings of operations over a growing family of tokens/builders/blocks sharing ancestors; invariant 'fingerprint of every live object unchanged after every step'",
-         "Seeded exploration of 6-40 step histories; after every step every live token and built block is re-fingerprinted (String, Code, bytes, revocation ids, counts, root key id) and on creation each token is decoded independently and compared with exactly what its own callers put in. Sampling.",
+         "Seeded exploration of 6-40 step histories; after every step every live token and built block is re-fingerprinted (String, Code, bytes, revocation ids, counts, root key id) and on creation each token is decoded independently and compared with exactly what its own callers put in; the authorization behaviour of up to three family members is observed early and again at the end of the history. Plus a fault-enumeration part: directed two-sibling histories with an evaluation deadline placed at EVERY scheduler step and the goroutines it leaves behind interleaved with the sibling's later evaluations. Sampling elsewhere.",
          "trusted: bsim/ref decoder for the creation-time content check; the fingerprint is the library's own observable surface", "DESIGN.md §3 C08"),
  "C09": ("exploration", "deterministic simulation with fault injection: seal / reload / extend / tamper histories; sealed-vs-unsealed twin agreement plus transport tampering of the sealed envelope judged by the reference chain walk",
          "Seeded exploration: twin agreement (verification result, verdict, failed checks, revocation ids) between a token, its sealed form and the sealed form reloaded from bytes; Append and Seal on sealed tokens (fresh and reloaded) must fail; tampered sealed envelopes must be rejected. Sampling.",
@@ -40,16 +40,16 @@ CHECKS = {
          "Seeded exploration of 2-5 rounds per authorizer; each round's verdict, failed checks and query results (a panel with one query per predicate) must equal those of a freshly created authorizer given only that round's content; rounds are biased so that the previous round's facts would satisfy this round's checks. Plus a fault-enumeration part: directed histories (productive round, Reset, rounds asking about what the first derived) with the deadline placed at EVERY scheduler step, goroutines left behind by the timed-out round NOT drained but interleaved with the following rounds. Sampling elsewhere.",
          "trusted: none beyond errors.Is classification", "DESIGN.md §3 C13"),
  "C16": ("exploration", "deterministic simulation with fault injection: derivation histories x verifier key maps, root key id rewritten in transit; ledger of ids + exact-key selection judged by the reference chain walk",
-         "Seeded exploration over ids {absent, 0, 1, 2^31, 2^32-1, random}, all derivation orders (attenuate, seal, serialize, reload) and key maps with right keys under wrong ids and wrong keys under right ids. Sampling.",
+         "Seeded exploration over ids {absent, 0, 1, 2^31, 2^32-1, random}, all derivation orders (attenuate, seal, serialize, reload) and key maps with right keys under wrong ids, wrong keys under right ids, empty keys, and keys rotated in place between two verifications of the same token object. Sampling.",
          "trusted: bsim/ref envelope decoder and chain walk", "DESIGN.md §3 C16"),
  "C17": ("exploration", "deterministic simulation: derivation histories with fresh simulated entropy per signing event; prefix stability, independent signature extraction and a run-wide uniqueness registry",
          "Seeded exploration biased to identical twins (same content signed twice on the same and on different parents). Sampling; uniqueness is checked within each run (the premise is fresh entropy per operation, which the simulator controls).",
          "trusted: bsim/ref envelope decoder; crypto/ed25519 determinism", "DESIGN.md §3 C17"),
  "C18": ("exploration", "deterministic simulation with fault injection: authorizer snapshot written to a simulated disk (clean, torn, short, bit-flipped, lost, unsynced), verifier crash and restart, reload; restored-vs-original twin agreement on the clean disk, no-panic / still-usable on the faulty disk",
-         "Seeded exploration; clean and faulty disk configurations are run separately so that the relaxation (no equivalence demanded after a disk fault) cannot hide an ordinary bug. Sampling.",
+         "Seeded exploration; clean and faulty disk configurations are run separately so that the relaxation (no equivalence demanded after a disk fault) cannot hide an ordinary bug. Restoring authorizers carry non-default limits, near-duplicate rules and are also used query-only (query, load, query). Sampling.",
          "trusted: none for the twin half (model-free); a corrupted snapshot that still decodes is a different valid policy, so only no-panic is demanded there", "DESIGN.md §3 C18"),
  "C10": ("exploration", "deterministic simulation with fault injection: a Byzantine issuer (own wire writer, valid signatures, adversarial field values) and byte-level corruption in transit; every delivered byte string is exercised by holder and verifier operations; node crash = death of the worker OS process",
-         "Seeded exploration; oracle = no recovered panic on the calling goroutine and no death of the worker process, which is the only way a panic on a library-owned goroutine can be observed. Harness crashes are told apart (no library frame on the dying goroutine) and reported as exit 2, never as a violation. Sampling.",
+         "Seeded exploration (Byzantine blocks, hostile authorizer content incl. run-time mixed-type sets, long-lived authorizers whose first evaluation fails in a later block, clock stalls during hostile evaluations); oracle = no recovered panic on the calling goroutine and no death of the worker process, which is the only way a panic on a library-owned goroutine can be observed. Harness crashes are told apart (no library frame on the dying goroutine) and reported as exit 2, never as a violation. Sampling.",
          "trusted: the worker-death attribution rule (first frame of the dying goroutine inside biscuit-go/v2)", "DESIGN.md §3 C10"),
  "C19": ("exploration", "deterministic simulation of caller threads: seeded operation-level interleavings of 2-4 tasks on one shared token under the Go race detector, with a turn gate the detector cannot see (//go:norace), plus solo-run result equality",
          "Seeded exploration of interleavings; a data race is reported by the race detector whatever the distance in time between the two accesses because the scheduler contributes no happens-before edge; results of every operation must equal those of the same script run alone. Sampling; shadow-memory eviction can hide a pair, never invent one.",
